@@ -101,6 +101,66 @@ var oeCarriers = []string{
 	"PushBlob", "PushBlobChunked", "PushBlobChunkedResume", "MountBlob", "PushManifest",
 	"DeleteBlob", "DeleteManifest", "DeleteTag",
 	"Repositories", "Tags", "Referrers",
+	// carriers where the error is raised by the backend's BlobWriter (see oeWriterFail)
+	"WPushBlob", "WWriteCommit", "WWritePatch", "WClose", "WCommit",
+}
+
+// oeWriterFail: which method of the backend's BlobWriter fails for a writer carrier.
+//   WPushBlob     PushBlob: the closing PUT carries the content, the backend's Write fails
+//   WWriteCommit  PushBlobChunked, Write within the chunk size, Commit: the same PUT
+//   WWritePatch   a Write that overflows the chunk size is sent as a PATCH, the backend's Write fails
+//   WClose        Close flushes buffered data as a PATCH, the backend's Close fails
+//   WCommit       Commit with nothing written: a body-less PUT, the backend's Commit fails
+var oeWriterFail = map[string]string{
+	"WPushBlob": "W.Write", "WWriteCommit": "W.Write", "WWritePatch": "W.Write", "WClose": "W.Close", "WCommit": "W.Commit",
+}
+
+// oeFakeWriter is the backend's BlobWriter for writer carriers: the method named by failAt()
+// fails with fail(<name>), the others succeed.
+type oeFakeWriter struct {
+	failAt func() string
+	fail   func(method string) error
+	size   int64
+}
+
+func (w *oeFakeWriter) Write(p []byte) (int, error) {
+	if w.failAt() == "W.Write" {
+		return 0, w.fail("W.Write")
+	}
+	w.size += int64(len(p))
+	return len(p), nil
+}
+func (w *oeFakeWriter) Close() error {
+	if w.failAt() == "W.Close" {
+		return w.fail("W.Close")
+	}
+	return nil
+}
+func (w *oeFakeWriter) Size() int64    { return w.size }
+func (w *oeFakeWriter) ChunkSize() int { return 1 }
+func (w *oeFakeWriter) ID() string     { return "u1" }
+func (w *oeFakeWriter) Commit(d ociregistry.Digest) (ociregistry.Descriptor, error) {
+	if w.failAt() == "W.Commit" {
+		return ociregistry.Descriptor{}, w.fail("W.Commit")
+	}
+	return ociregistry.Descriptor{MediaType: "application/octet-stream", Digest: d, Size: w.size}, nil
+}
+func (w *oeFakeWriter) Cancel() error { return nil }
+
+// oeObsWriter lets an observer see the errors of the BlobWriter its client handed out.
+type oeObsWriter struct {
+	ociregistry.BlobWriter
+	o *oeObserver
+}
+
+func (w *oeObsWriter) Write(p []byte) (int, error) {
+	n, err := w.BlobWriter.Write(p)
+	return n, w.o.rec(err)
+}
+func (w *oeObsWriter) Close() error { return w.o.rec(w.BlobWriter.Close()) }
+func (w *oeObsWriter) Commit(d ociregistry.Digest) (ociregistry.Descriptor, error) {
+	desc, err := w.BlobWriter.Commit(d)
+	return desc, w.o.rec(err)
 }
 
 // ---------------------------------------------------------------- texts and tokens
@@ -437,13 +497,16 @@ func (t *oeTap) RoundTrip(req *http.Request) (*http.Response, error) {
 		return resp, err
 	}
 	t.nreq++
-	t.method = req.Method
-	t.status = resp.StatusCode
-	t.ctype = resp.Header.Get("Content-Type")
 	data, _ := io.ReadAll(resp.Body)
 	resp.Body.Close()
-	t.body = data
 	resp.Body = io.NopCloser(bytes.NewReader(data))
+	if t.status < 400 {
+		// keep the first error response of the case (earlier successful ones are overwritten)
+		t.method = req.Method
+		t.status = resp.StatusCode
+		t.ctype = resp.Header.Get("Content-Type")
+		t.body = data
+	}
 	return resp, nil
 }
 
@@ -486,7 +549,15 @@ type oeObserver struct {
 	items []int
 }
 
-func (o *oeObserver) rec(err error) error { o.got, o.seen = err, true; return err }
+// rec keeps the FIRST error seen at this level for the case (a server may call Close after a
+// failed Commit, which fails again).
+func (o *oeObserver) rec(err error) error {
+	if o.got == nil {
+		o.got = err
+	}
+	o.seen = true
+	return err
+}
 
 func (o *oeObserver) GetBlob(ctx context.Context, repo string, d ociregistry.Digest) (ociregistry.BlobReader, error) {
 	r, err := o.Interface.GetBlob(ctx, repo, d)
@@ -522,10 +593,16 @@ func (o *oeObserver) PushBlob(ctx context.Context, repo string, desc ociregistry
 }
 func (o *oeObserver) PushBlobChunked(ctx context.Context, repo string, chunkSize int) (ociregistry.BlobWriter, error) {
 	w, err := o.Interface.PushBlobChunked(ctx, repo, chunkSize)
+	if err == nil && w != nil {
+		w = &oeObsWriter{w, o}
+	}
 	return w, o.rec(err)
 }
 func (o *oeObserver) PushBlobChunkedResume(ctx context.Context, repo, id string, offset int64, chunkSize int) (ociregistry.BlobWriter, error) {
 	w, err := o.Interface.PushBlobChunkedResume(ctx, repo, id, offset, chunkSize)
+	if err == nil && w != nil {
+		w = &oeObsWriter{w, o}
+	}
 	return w, o.rec(err)
 }
 func (o *oeObserver) MountBlob(ctx context.Context, from, to string, d ociregistry.Digest) (ociregistry.Descriptor, error) {
@@ -607,7 +684,7 @@ func oeItemsThenErr[T any](n int, start string, item func(i int) T, fail func() 
 	}
 }
 
-func oeBackend(nitems func() int, fail func(method string) error) ociregistry.Interface {
+func oeBackend(nitems func() int, failAt func() string, fail func(method string) error) ociregistry.Interface {
 	type D = ociregistry.Digest
 	type Desc = ociregistry.Descriptor
 	return &ociregistry.Funcs{
@@ -630,9 +707,15 @@ func oeBackend(nitems func() int, fail func(method string) error) ociregistry.In
 			return Desc{}, fail("PushBlob")
 		},
 		PushBlobChunked_: func(ctx context.Context, repo string, chunkSize int) (ociregistry.BlobWriter, error) {
+			if failAt() != "" {
+				return &oeFakeWriter{failAt: failAt, fail: fail}, nil
+			}
 			return nil, fail("PushBlobChunked")
 		},
 		PushBlobChunkedResume_: func(ctx context.Context, repo, id string, offset int64, chunkSize int) (ociregistry.BlobWriter, error) {
+			if failAt() != "" {
+				return &oeFakeWriter{failAt: failAt, fail: fail, size: max(offset, 0)}, nil
+			}
 			return nil, fail("PushBlobChunkedResume")
 		},
 		MountBlob_: func(ctx context.Context, from, to string, d D) (Desc, error) { return Desc{}, fail("MountBlob") },
@@ -657,6 +740,7 @@ func oeBackend(nitems func() int, fail func(method string) error) ociregistry.In
 type oeStack struct {
 	cur     error
 	nitems  int
+	failAt  string // writer carriers: the method of the backend's BlobWriter that fails
 	reached []string
 	obs     []*oeObserver // obs[j-1]: level j (j hops above the backend)
 	taps    []*oeTap
@@ -665,7 +749,7 @@ type oeStack struct {
 
 func oeNewStack(hops, page int) (*oeStack, error) {
 	st := &oeStack{}
-	var below ociregistry.Interface = oeBackend(func() int { return st.nitems }, func(method string) error {
+	var below ociregistry.Interface = oeBackend(func() int { return st.nitems }, func() string { return st.failAt }, func(method string) error {
 		st.reached = append(st.reached, method)
 		return st.cur
 	})
@@ -769,6 +853,39 @@ func oeCall(ctx context.Context, top ociregistry.Interface, carrier string, hops
 	case "Referrers":
 		oeDrain(top.Referrers(ctx, oeRepo, oeDigest, ""))
 		return nil
+	case "WPushBlob":
+		_, err := top.PushBlob(ctx, oeRepo, ociregistry.Descriptor{MediaType: "application/octet-stream", Digest: oeDigest, Size: int64(len(oeBlob))}, bytes.NewReader(oeBlob))
+		return err
+	case "WWriteCommit":
+		w, err := top.PushBlobChunked(ctx, oeRepo, 0)
+		if err != nil {
+			return err
+		}
+		if _, err := w.Write(oeBlob); err != nil {
+			return err
+		}
+		_, err = w.Commit(oeDigest)
+		return err
+	case "WWritePatch", "WClose", "WCommit":
+		chunk := 64
+		if carrier == "WWritePatch" {
+			chunk = 4
+		}
+		w, err := top.PushBlobChunkedResume(ctx, oeRepo, oeUploadID(hops), 0, chunk)
+		if err != nil {
+			return err
+		}
+		switch carrier {
+		case "WWritePatch":
+			_, err = w.Write(oeBlob)
+		case "WClose":
+			if _, err = w.Write(oeBlob); err == nil {
+				err = w.Close()
+			}
+		case "WCommit":
+			_, err = w.Commit(oeDigest)
+		}
+		return err
 	}
 	panic("harness: unknown carrier " + carrier)
 }
@@ -785,6 +902,7 @@ func (st *oeStack) run(c *oeCase) (e ev) {
 	st.cur = oeBuild(&c.Err)
 	st.reached = nil
 	st.nitems = c.NItems
+	st.failAt = oeWriterFail[c.Carrier]
 	for j := range st.obs {
 		st.obs[j].got, st.obs[j].seen, st.obs[j].items = nil, false, nil
 		st.taps[j].reset()
